@@ -117,6 +117,54 @@ def diff_trees(a, b):
     return [k for k in keys if a.get(k) != b.get(k)]
 
 
+def directory_race_oracle(ctx, work):
+    """Hypothesis of the commutation theorem measured at the primitive: every worker command begins by creating
+    directories that other commands create too, so directory creation must tolerate another process creating
+    the same directory at any moment.  A real race is microseconds wide; it is simulated faithfully in this
+    process: whenever the code under test ASKS whether the directory exists and the true answer is "no", the
+    answer is given and then "another worker" creates the directory.  No false information is ever returned."""
+    import importlib
+    cli = importlib.import_module("vc2_conformance.scripts.vc2_test_case_generator.cli")
+    fn = getattr(cli, "makedirs", None)
+    if fn is None:
+        ctx.note("cli.makedirs not found: directory race oracle skipped")
+        return
+    real = {"isdir": os.path.isdir, "exists": os.path.exists, "lexists": os.path.lexists, "stat": os.stat}
+    for depth in (1, 2, 3):
+        root = os.path.join(work, "race%d" % depth)
+        os.makedirs(root)
+        parts = [root] + ["d%d" % i for i in range(depth)]
+        target = os.path.join(*parts)
+        watched = set(os.path.join(*parts[:k]) for k in range(2, len(parts) + 1))
+
+        def wrap(name):
+            def probe(p, *a, **kw):
+                try:
+                    r = real[name](p, *a, **kw)
+                except OSError:
+                    if name == "stat" and os.fspath(p) in watched:
+                        os.makedirs(os.fspath(p), exist_ok=True)       # the other worker wins the race now
+                    raise
+                if r is False and os.fspath(p) in watched:
+                    os.makedirs(os.fspath(p), exist_ok=True)           # the other worker wins the race now
+                return r
+            return probe
+        os.path.isdir, os.path.exists, os.path.lexists = wrap("isdir"), wrap("exists"), wrap("lexists")
+        try:
+            try:
+                fn(target, exist_ok=True)
+                ok, detail = real["isdir"](target), ""
+            except OSError as e:
+                ok, detail = False, "%s: %s" % (type(e).__name__, e)
+        finally:
+            os.path.isdir, os.path.exists, os.path.lexists = real["isdir"], real["exists"], real["lexists"]
+        ctx.count(1, key=("dir-race", depth), bucket="directory-race-probe")
+        if not ok:
+            ctx.violation("directory-creation-not-race-free", {"depth": depth},
+                          "the directory creation used by every worker command fails when another worker creates the same "
+                          "directory between its existence check and its mkdir: %s" % detail)
+
+
 def run(ctx):
     rng = ctx.rng
     ctx.extra["rule"] = (
@@ -131,6 +179,7 @@ def run(ctx):
     shutil.rmtree(work, ignore_errors=True)
     os.makedirs(work)
     try:
+        directory_race_oracle(ctx, work)
         for variant in variants:
             base = os.path.join(work, variant.replace("+", "_"))
             os.makedirs(base)
